@@ -249,7 +249,7 @@ impl Check for C06 {
         vec!["a refused first hop is not a violation (counted)".into(), "K5 (toml crate ordering of nested arrays containing tables) is excluded from the TOML value-level round trip by its input-side predicate".into()]
     }
     fn units(&self, tier: Tier) -> Vec<Unit> {
-        vec![Unit::gen("gen", 16, tier.pick(8000, 150_000)), Unit::enumerate("scalar_sweep", 16)]
+        vec![Unit::gen("gen", 16, tier.pick(40_000, 250_000)), Unit::enumerate("scalar_sweep", 16)]
     }
     fn required_classes(&self, _tier: Tier) -> Vec<&'static str> {
         vec!["fixed_point_checked", "round_trip_checked", "extension_value", "pair:json->toml", "pair:toml->yaml", "pair:msgpack->json", "pair:yaml->msgpack"]
